@@ -167,6 +167,19 @@ REGISTRY = {
                 "present / absent): once it is seen read() returns end-of-stream without touching the reader, and the tokenizer's "
                 "flush contract (C04 at N = blocks read so far) gives the detections of the prefix",
                 "cmdline.main's interrupt handler is covered by C15's path contract (KeyboardInterrupt => stop_all => status 0)"]},
+    "C15": {"parts": [{"module": "props.cmdline", "units": ["formatter", "option_table", "make_kwargs", "initialize_workers", "main"]},
+                      {"module": "props.workers", "units": ["print_worker", "worker_run", "tokenizer_run", "tokenizer_init_read"]}],
+            "witness": "cli", "assumptions": [
+                "argparse semantics (add_argument / parse_args), str.format, str.replace/index and print are library models (assumed); "
+                "the option table is read from the literal add_argument calls in main()'s AST",
+                "format strings for the duration formatter are case-split over 16 representatives (bounded on strings, incl. unknown "
+                "directives, duplicates, %S/%I combined with other text); durations (float or int, >= 0) are symbolic",
+                "seconds*1000 is read as real arithmetic, int() as exact truncation: %I and the field directives use this same "
+                "whole-millisecond value",
+                "the end-to-end sentence is the composition: option table -> make_kwargs -> initialize_workers -> TokenizerWorker "
+                "(C12: detections are split(**kwargs) on the reader) -> PrintWorker line; files of -o/-O/-j are C13",
+                "KeyboardInterrupt is modelled as arriving during the main wait loop (an interrupt before the workers exist raises "
+                "NameError in the real code: outside the statement, noted in DESIGN)"]},
     "C16": {"module": "props.regions", "units": ["post_init", "getitem", "len", "seconds", "millis"],
             "witness": "region", "assumptions": REG_ASSUME},
     "C17": {"module": "props.regions", "units": ["post_init", "getitem", "add", "mul", "eq", "make_silence", "truediv",
